@@ -24,6 +24,9 @@ func runC13(p *Prog, r *Report) {
 	if want("C13.2") {
 		ruleEntryGates(p, r, "C13.2")
 	}
+	if want("C13.16") {
+		ruleBufferPoolGet(p, r, "C13.16")
+	}
 	if want("C13.15") {
 		ruleBytewiseShortening(p, r, "C13.15")
 	}
